@@ -15,7 +15,7 @@ LEVEL_TEXT = ("Held on every (configuration, string, only_last) case of this run
 LEVEL_NOTE = ("GC bounds are drawn as (2j+1)/(2k) or from {0, 1/4, 1/2, 3/4, 1}, so float rounding of bound*k can never flip an "
               "integer comparison and any conforming implementation agrees with the rational oracle (no false alarms).")
 PLAN = {"quick": dict(shards=16, budget=40), "thorough": dict(shards=32, budget=300)}
-RULE = ("LocalBioFilter(k, run, gc, motifs).valid(s, only_last) for k = 1..10, run limit None/0..k, GC ranges incl. degenerate, "
+RULE = ("LocalBioFilter(k, run, gc, motifs).valid(s, only_last) for k = 1..10 (15% of the configurations 11..20), run limit None/0..k, GC ranges incl. degenerate, "
         "inverted and asymmetric, motif sets incl. palindromic and self-overlapping motifs; strings of length 0, 1, k-1, k, k+1, "
         "2k, 3k+2 with a G+C bias sweeping the bounds, injected runs (limit, limit+1), motif / reverse complement at every "
         "offset, foreign characters at every offset. Verdict vs the rational predicate; valid(s, True) == valid(s[-k:], False); "
@@ -104,7 +104,7 @@ def _motifs(rng, k):
 
 
 def _config(rng):
-    k = rng.randint(1, 10)
+    k = rng.randint(1, 10) if rng.random() < 0.85 else rng.randint(11, 20)
     run = rng.choice([None, None] + list(range(0, k + 1)))
     return dict(k=k, run=run, gc=_gc_range(rng, k), motifs=_motifs(rng, k))
 
@@ -234,7 +234,7 @@ def check_valid(ctx, case):
             if abs(n - bound) <= 1:
                 ctx.cls("gc-count within 1 of %s bound" % name)
     ctx.cls("string|" + case["tag"])
-    ctx.cls("k|%d" % k)
+    ctx.cls("k|%s" % (k if k <= 10 else ">10"))
     ctx.done("valid", case, len(s) >= 2 and configured)
 
 
